@@ -851,3 +851,165 @@ Proof.
   induction calls as [|c t IH]; intros s; simpl; [reflexivity|].
   rewrite run_entries_app. destruct (run_entries i o s c); simpl; [apply IH|reflexivity|reflexivity].
 Qed.
+
+(* ================= the uncompressed counter is the length of the decompressed payload ================= *)
+Definition uc (s s' : wst) (b : bytes) : Prop := w_unc s' = w_unc s + N.of_nat (length b).
+
+Lemma uc_refl : forall s, uc s s [].
+Proof. intros s. unfold uc. simpl. lia. Qed.
+
+Lemma uc_trans : forall s1 s2 s3 a b, uc s1 s2 a -> uc s2 s3 b -> uc s1 s3 (a ++ b).
+Proof. unfold uc. intros s1 s2 s3 a b H1 H2. rewrite H2, H1, app_length. lia. Qed.
+
+Lemma uc_nil_l : forall s1 s2 s3 b, uc s1 s2 [] -> uc s2 s3 b -> uc s1 s3 b.
+Proof. intros s1 s2 s3 b H1 H2. exact (uc_trans _ _ _ _ _ H1 H2). Qed.
+
+Lemma uc_nil_r : forall s1 s2 s3 b, uc s1 s2 b -> uc s2 s3 [] -> uc s1 s3 b.
+Proof. intros s1 s2 s3 b H1 H2. rewrite <- (app_nil_r b). exact (uc_trans _ _ _ _ _ H1 H2). Qed.
+
+Lemma uc_cond_open : forall s, uc s (cond_open s) [].
+Proof. intros s. unfold uc, cond_open. destruct (w_cur s); simpl; lia. Qed.
+
+Lemma uc_wr : forall s b n, N.of_nat (length b) = n -> uc s (wr s b n) b.
+Proof. intros s b n H. unfold uc. simpl. lia. Qed.
+
+Lemma uc_close : forall s s', close_member s = Ok s' -> uc s s' [].
+Proof.
+  intros s s' H. unfold close_member in H. unfold uc.
+  destruct (w_cur s); [destruct (w_cs s); [discriminate|]|]; injection H as <-; simpl; lia.
+Qed.
+
+Lemma uc_observe : forall s s', observe_flush s = Ok s' -> uc s s' [].
+Proof. intros s s' H. unfold observe_flush in H. destruct (w_fs s); [discriminate|]. injection H as <-. unfold uc. simpl. lia. Qed.
+
+Lemma uc_set_prev : forall s a b, uc s (set_prev s a b) [].
+Proof. intros. unfold uc. simpl. lia. Qed.
+
+Lemma uc_add_toc : forall s t, uc s (add_toc s t) [].
+Proof. intros. unfold uc. simpl. lia. Qed.
+
+Lemma uc_do_chunk : forall i o e first s c s',
+  N.of_nat (length (content i e)) = e_size e -> chunk_ok e c ->
+  do_chunk i o e first s c = Ok s' -> uc s s' (chunk_bytes i e c).
+Proof.
+  intros i o e first s [[coff clen] csf] s' Hc (R1 & R2 & R3) H. unfold do_chunk in H. unfold chunk_bytes. simpl.
+  assert (L : N.of_nat (length (sl coff clen (content i e))) = clen) by (rewrite sl_length; lia).
+  destruct (o_min o <=? 0)%Z.
+  - simpl in H. destruct (close_member s) as [s2| |] eqn:C; try discriminate. simpl in H. injection H as <-.
+    eapply uc_nil_l; [apply (uc_close _ _ C)|].
+    eapply uc_nil_l; [apply uc_set_prev|].
+    eapply uc_nil_l; [apply uc_cond_open|].
+    eapply uc_nil_r; [apply uc_wr; exact L|apply uc_add_toc].
+  - destruct (observe_flush s) as [s1| |] eqn:O; try discriminate. simpl in H.
+    destruct (first && e_open e || (o_min o <=? Z.of_N (w_cwn s1) - Z.of_N (w_poff s1))%Z).
+    + destruct (close_member s1) as [s2| |] eqn:C; try discriminate. simpl in H. injection H as <-.
+      eapply uc_nil_l; [apply (uc_observe _ _ O)|].
+      eapply uc_nil_l; [apply (uc_close _ _ C)|].
+      eapply uc_nil_l; [apply uc_set_prev|].
+      eapply uc_nil_l; [apply uc_cond_open|].
+      eapply uc_nil_r; [apply uc_wr; exact L|apply uc_add_toc].
+    + simpl in H. injection H as <-.
+      eapply uc_nil_l; [apply (uc_observe _ _ O)|].
+      eapply uc_nil_l; [apply uc_cond_open|].
+      eapply uc_nil_r; [apply uc_wr; exact L|apply uc_add_toc].
+Qed.
+
+Lemma uc_do_chunks : forall i o e cl first s s',
+  N.of_nat (length (content i e)) = e_size e -> Forall (chunk_ok e) cl ->
+  do_chunks i o e first s cl = Ok s' -> uc s s' (concat (map (chunk_bytes i e) cl)).
+Proof.
+  induction cl as [|c cl IH]; intros first s s' Hc F H; simpl in *.
+  - injection H as <-. apply uc_refl.
+  - inversion F as [|? ? Fc Fcl]; subst.
+    destruct (do_chunk i o e first s c) as [s1| |] eqn:D; try discriminate. simpl in H.
+    eapply uc_trans; [apply (uc_do_chunk _ _ _ _ _ _ _ Hc Fc D)|apply (IH _ _ _ Hc Fcl H)].
+Qed.
+
+Lemma uc_step_entry : forall i o s e s', wf_entry i e ->
+  step_entry i o s e = Ok s' -> uc s s' (ser_entry i false e).
+Proof.
+  intros i o s e s' (Hh & _ & Hc & Hp) H. unfold step_entry in H. unfold ser_entry.
+  assert (HDR : forall s0, uc s0 (wr (cond_open s0) (hdr i e) (e_hlen e)) (hdr i e)).
+  { intros s0. eapply uc_nil_l; [apply uc_cond_open|apply uc_wr; exact Hh]. }
+  assert (PADL : N.of_nat (length (padb i e)) = pad512 (data_size e)) by (rewrite Hp, repeat_length; lia).
+  destruct (e_kind e) eqn:K.
+  - assert (DS : data_size e = e_size e) by (unfold data_size; rewrite K; reflexivity).
+    rewrite DS in *. destruct (0 <? e_size e) eqn:Z.
+    + destruct (do_chunks _ _ _ _ _ _) as [s2| |] eqn:D; try discriminate. simpl in H. injection H as <-.
+      apply (uc_do_chunks _ _ _ _ _ _ _ Hc (chunk_list_ok e _ _ 0 (eff_chunk_pos o))) in D.
+      pose proof (chunks_tile i e (eff_chunk o) (e_size e) (eff_chunk_pos o)) as T.
+      rewrite <- Hc, Nat2N.id, firstn_all in T. rewrite Hc in T. unfold chunks in T, D. rewrite T in D.
+      eapply uc_trans; [apply HDR|]. eapply uc_trans; [exact D|].
+      destruct (0 <? pad512 (e_size e)) eqn:P; [apply uc_wr; exact PADL|].
+      apply N.ltb_ge in P. destruct (padb i e); [apply uc_refl|simpl in PADL; lia].
+    + injection H as <-. apply N.ltb_ge in Z.
+      assert (content i e = []) as -> by (destruct (content i e); [reflexivity|simpl in Hc; lia]).
+      assert (padb i e = []) as ->.
+      { destruct (padb i e); [reflexivity|]. simpl in PADL. replace (e_size e) with 0 in PADL by lia. vm_compute in PADL. lia. }
+      simpl. rewrite app_nil_r. eapply uc_nil_r; [apply HDR|apply uc_add_toc].
+  - assert (DS : data_size e = 0) by (unfold data_size; rewrite K; reflexivity).
+    rewrite DS in *. simpl in H. injection H as <-.
+    assert (content i e = []) as -> by (destruct (content i e); [reflexivity|simpl in Hc; lia]).
+    assert (padb i e = []) as -> by (rewrite Hp; reflexivity).
+    simpl. rewrite app_nil_r. eapply uc_nil_r; [apply HDR|apply uc_add_toc].
+  - destruct (o_lossless o); [discriminate|]. injection H as <-. apply uc_refl.
+  - discriminate.
+Qed.
+
+Lemma uc_run_entries : forall i o es s s', Forall (wf_entry i) es ->
+  run_entries i o s es = Ok s' -> uc s s' (ser i es).
+Proof.
+  induction es as [|e es IH]; intros s s' W H; simpl in *.
+  - injection H as <-. apply uc_refl.
+  - inversion W as [|? ? We Wes]; subst.
+    destruct (step_entry i o s e) as [s1| |] eqn:S; try discriminate. simpl in H.
+    unfold ser. simpl. eapply uc_trans; [apply (uc_step_entry _ _ _ _ _ We S)|apply (IH _ _ Wes H)].
+Qed.
+
+(* the declared length of the raw trailer of a lossless input is its real length *)
+Definition wf_trail (i : io) (o : wopts) (tlen : N) : Prop :=
+  o_lossless o && (0 <? tlen) = true -> N.of_nat (length (trail i)) = tlen.
+
+Lemma writer_unc : forall i o tlen es cs fs w, Forall (wf_entry i) es -> wf_trail i o tlen ->
+  run_writer i o tlen es cs fs = Ok w ->
+  w_unc w = N.of_nat (length (payloads (w_closed w))).
+Proof.
+  intros i o tlen es cs fs w W T H.
+  destruct (writer_payload _ _ _ _ _ _ _ W H) as [P _]. rewrite P.
+  unfold run_writer, append_tar in H.
+  destruct (run_entries i o (init_w cs fs) es) as [s1| |] eqn:R; try discriminate. simpl in H.
+  pose proof (uc_run_entries _ _ _ _ _ W R) as U1. pose proof (uc_close _ _ H) as U2.
+  unfold uc in *. simpl in *. rewrite U2, app_length. unfold trail_of, wf_trail in *.
+  destruct (o_lossless o && (0 <? tlen)).
+  - simpl. rewrite U1, (T eq_refl). lia.
+  - rewrite U1. simpl. lia.
+Qed.
+
+Lemma parts_unc : forall i o parts cs fs ws, Forall (Forall (wf_entry i)) parts ->
+  run_parts i o parts cs fs = Ok ws ->
+  fold_right (fun w a => w_unc w + a) 0 ws = N.of_nat (length (payloads (combine_members ws))).
+Proof.
+  induction parts as [|p ps IH]; intros cs fs ws W H; simpl in *.
+  - injection H as <-. reflexivity.
+  - inversion W as [|? ? Wp Wps]; subst.
+    destruct (run_writer i o 0 p cs fs) as [w| |] eqn:R; try discriminate. simpl in H.
+    destruct (run_parts i o ps (w_cs w) (w_fs w)) as [ws'| |] eqn:R'; try discriminate. simpl in H. injection H as <-.
+    simpl. unfold combine_members. simpl. rewrite payloads_app, app_length. fold (combine_members ws').
+    rewrite (IH _ _ _ Wps R').
+    rewrite (writer_unc _ _ _ _ _ _ _ Wp ltac:(unfold wf_trail; rewrite andb_false_r; discriminate) R). lia.
+Qed.
+
+Lemma build_unc : forall i m chunk minc tlen es cs fs b, Forall (wf_entry i) es ->
+  (m = MLossless -> 0 < tlen -> N.of_nat (length (trail i)) = tlen) ->
+  build_blob i m chunk minc tlen es cs fs = Ok b ->
+  b_unc b = N.of_nat (length (payloads (b_members b))).
+Proof.
+  intros i m chunk minc tlen es cs fs b W T H. destruct m as [| |k]; simpl in H.
+  - destruct (run_writer _ _ _ _ _ _) as [w| |] eqn:R; try discriminate. injection H as <-. simpl.
+    apply (writer_unc _ _ _ _ _ _ _ W) in R; [exact R|]. unfold wf_trail. simpl. discriminate.
+  - destruct (run_writer _ _ _ _ _ _) as [w| |] eqn:R; try discriminate. injection H as <-. simpl.
+    apply (writer_unc _ _ _ _ _ _ _ W) in R; [exact R|]. unfold wf_trail. simpl. intros Z. apply T; [reflexivity|].
+    apply N.ltb_lt. exact Z.
+  - destruct (run_parts _ _ _ _ _) as [ws| |] eqn:R; try discriminate. injection H as <-. simpl.
+    eapply parts_unc; [|exact R]. apply Forall_concat. rewrite workers_parts_concat. exact W.
+Qed.
